@@ -161,6 +161,13 @@ fn replace_html_char<'a>(ch: char) -> Cow<'a, str> {
         '\'' => Cow::from("&#39;"),
         '"' => Cow::from("&quot;"),
         '\0' => Cow::from(""),
+        // characters which XML 1.0 can not represent, not even as a character reference
+        '\u{1}'..='\u{8}'
+        | '\u{b}'
+        | '\u{c}'
+        | '\u{e}'..='\u{1f}'
+        | '\u{fffe}'
+        | '\u{ffff}' => Cow::from(""),
         _ => Cow::from(ch.to_string()),
     }
 }
